@@ -118,4 +118,42 @@ theorem filter_sublist (files : List FileDoc) (namespaces : List (Option Str)) :
 example : nsDataXml ⟨"a.xml".toList, true, ⟨["urn:a".toList, "urn:b".toList], [⟨some "urn:a".toList, none, none, []⟩], [], []⟩⟩ =
     .ok ⟨"urn:a".toList, [UA_URI, "urn:b".toList]⟩ := by decide
 
+
+theorem filesAux_models (g : List Str) (docs : List Doc) (r : ParseOut) (h : parseFilesAux g docs = .ok r) :
+    r.models = docs.flatMap (·.models) := by
+  induction docs generalizing g r with
+  | nil => simp [parseFilesAux] at h; subst h; rfl
+  | cons d ds ih =>
+    simp only [parseFilesAux] at h
+    cases hd : parseDoc g d with
+    | error e => rw [hd] at h; simp at h
+    | ok gp =>
+      obtain ⟨g1, p⟩ := gp
+      rw [hd] at h
+      simp only at h
+      cases hr : parseFilesAux g1 ds with
+      | error e => rw [hr] at h; simp at h
+      | ok r' =>
+        rw [hr] at h
+        simp only [Except.ok.injEq] at h
+        subst h
+        simp only [List.flatMap_cons]
+        rw [ih g1 r' hr, models_as_declared g d _ g1 p hd]
+
+/-- **several documents in one call**: the models of the output are the documents' Model elements, document
+    after document in reading order — every one of them, also when two documents declare the same ModelUri -/
+theorem files_models_concat (caller : List Str) (docs : List Doc) (out : ParseOut) (h : parseFiles caller docs = .ok out) :
+    out.models = docs.flatMap (·.models) := by
+  unfold parseFiles at h
+  split at h
+  · simp at h
+  · cases hr : parseFilesAux caller docs with
+    | error e => rw [hr] at h; simp at h
+    | ok r =>
+      rw [hr] at h
+      simp only [Except.ok.injEq] at h
+      subst h
+      exact filesAux_models caller docs r hr
+
+
 end Opcua.C18
